@@ -33,3 +33,4 @@ def run(check: Check, repo: Repo, tier: str) -> None:
     K.typed_returns(check, repo)
     K.enum_domain(check, repo)
     K.null_reject(check, repo)
+    K.exact_int(check, repo)
